@@ -32,7 +32,7 @@ End NodeInd.
 Inductive atom :=
 | ACh (c : char) (f : rpr) (st : list (wkind * mark))
 | ASp (tok : N) (f : rpr) (st : list (wkind * mark))
-| ACrs (id : str) | ACre (id : str)
+| ACrs (id : str) (st : list (wkind * mark)) | ACre (id : str) (st : list (wkind * mark))
 | ACref (id : str) (f : rpr) (st : list (wkind * mark)).      (* w:commentReference inside a run *)
 Definition kid_atoms (f : rpr) (st : list (wkind * mark)) (k : rchild) : list atom :=
   match k with
@@ -44,7 +44,7 @@ Fixpoint atoms (st : list (wkind * mark)) (n : node) : list atom :=
   match n with
   | NRun _ f kids => flat_map (kid_atoms f st) kids
   | NWrap _ k m cs => flat_map (atoms ((k, m) :: st)) cs
-  | NCrs i => [ACrs i] | NCre i => [ACre i]
+  | NCrs i => [ACrs i st] | NCre i => [ACre i st]
   | NOther t => [ASp t None st]
   end.
 Definition atoms_l st (ns : list node) := flat_map (atoms st) ns.
@@ -70,8 +70,8 @@ Section Rej.
     match a with
     | ACh c f st => if dead st then [] else [ACh c f (strip st)]
     | ASp t f st => if dead st then [] else [ASp t f (strip st)]
-    | ACrs i => if C i then [] else [a]
-    | ACre i => if C i then [] else [a]
+    | ACrs i st => if C i || dead st then [] else [ACrs i (strip st)]
+    | ACre i st => if C i || dead st then [] else [ACre i (strip st)]
     | ACref i f st => if C i || dead st then [] else [ACref i f (strip st)]
     end.
   Definition rej (l : list atom) := flat_map rej_atom l.
